@@ -72,10 +72,10 @@ def prog(t, p, ch=0): return Message(message_type=MT.PROGRAM_CHANGE, channel=ch,
 def event_msgs(events, ch=0):
     out = []
     for e in events:
-        if e[0] == "ts":
-            out.append(ts(e[1], e[2], e[3], ch))
+        if e[0] == "ts":          # an event may name its own channel as a last field
+            out.append(ts(e[1], e[2], e[3], e[4] if len(e) > 4 else ch))
         elif e[0] == "ks":
-            out.append(ks(e[1], e[2], ch))
+            out.append(ks(e[1], e[2], e[3] if len(e) > 3 else ch))
         elif e[0] == "pc":
             out.append(prog(e[1], e[2], ch))
         elif e[0] == "cc":
@@ -114,6 +114,8 @@ def seq_abs(notes=(), events=(), dur=None, ch_events=0, order="sane"):
         s.add_absolute_message(m)
     if dur is not None:
         s.add_absolute_message(cap(tk(dur), ch_events))
+    if order == "canonical":     # the library's own canonical order (AbsoluteSequence.sort: tick, channel, kind, pitch)
+        s.abs.sort()
     return s
 
 
